@@ -6,182 +6,175 @@ import (
 	"strconv"
 )
 
-// C18: structural facts of the forwarder worker loop (pkg/forwarder/worker.go) and its persisted position.
+// C18: structural facts of the forwarder worker loop and its persisted position, read from the flattened statement
+// sequence of worker.run and the same-package functions it calls (c18_flow.go): the query, the sink call, the position
+// update and the request replacement are identified by what they are (the call to Query / OnEvent / setPosition, the
+// assignment to the variable that is passed to Query), not by where they stand in one particular layout.
 func init() {
 	generators["C18"] = func() {
-		l := newLean("C18", "Facts about pkg/forwarder/worker.go (run, prepareQuery) and forwarder.go (desc.MarshalJSON, runPersistState).")
-		wf := parseFile("pkg/forwarder/worker.go")
-		run := funcDecl(wf, "worker", "run")
-		setAfter, retryKeeps, failuresContinue := false, false, false
+		l := newLean("C18", "Facts about pkg/forwarder/worker.go (run and what it calls, the first request) and forwarder.go (desc.MarshalJSON, runPersistState).")
+		fp := loadFwPkg("pkg/forwarder")
+		setAfter, retryKeeps, failuresRetry := false, false, false
 		sleepSec := -1
+		run := fp.method("worker", "run")
 		if run == nil {
 			problem("forwarder.worker.run not found")
 		} else {
-			var loop *ast.ForStmt
-			ast.Inspect(run.Body, func(n ast.Node) bool {
-				if f, ok := n.(*ast.ForStmt); ok && loop == nil {
-					loop = f
-					return false
-				}
-				return true
-			})
-			calls := func(n ast.Node, name string) bool {
-				found := false
-				ast.Inspect(n, func(m ast.Node) bool {
-					if c, ok := m.(*ast.CallExpr); ok {
-						if se, ok := c.Fun.(*ast.SelectorExpr); ok && se.Sel.Name == name {
-							found = true
-						}
-					}
-					return true
-				})
-				return found
-			}
-			endsWithContinue := func(b *ast.BlockStmt) bool {
-				if len(b.List) == 0 {
-					return false
-				}
-				bs, ok := b.List[len(b.List)-1].(*ast.BranchStmt)
-				return ok && bs.Tok == token.CONTINUE
-			}
-			if loop == nil {
-				problem("forwarder.worker.run: loop not found")
+			evs := fp.flatten(run, 2)
+			iQuery, iSink := fwIndex(evs, "call", "Query"), fwIndex(evs, "call", "OnEvent")
+			if iQuery < 0 || iSink < 0 || len(evs[iQuery].loops) == 0 {
+				problem("forwarder worker: no loop with a Query call and a sink OnEvent call found in worker.run or the functions it calls")
 			} else {
-				onEv, setPos, qrAssign, query := -1, -1, -1, -1
-				nFail, nCont := 0, 0
-				for i, st := range loop.Body.List {
-					if as, ok := st.(*ast.AssignStmt); ok {
-						if calls(as, "OnEvent") {
-							onEv = i
-						}
-						if calls(as, "Query") {
-							query = i
-						}
-						if len(as.Lhs) == 1 {
-							if id, ok := as.Lhs[0].(*ast.Ident); ok && id.Name == "qr" {
-								if qrAssign < 0 {
-									qrAssign = i
-								} else {
-									qrAssign = -2 // more than one assignment to the request
+				loop := evs[iQuery].loops[0]
+				// position updates
+				nSet, iSet := 0, -1
+				for i, e := range evs {
+					if e.kind == "call" && e.name == "setPosition" && fwInLoop(e, loop) {
+						nSet++
+						iSet = i
+					}
+				}
+				if nSet == 0 {
+					problem("forwarder worker: no setPosition call in the poll loop")
+				}
+				setAfter = nSet == 1 && iSet > iSink && iSink > iQuery
+
+				// the request variable of the loop function: what flows into Query's request argument
+				reqVar := ""
+				if len(evs[iQuery].call.Args) >= 2 {
+					if id, ok := evs[iQuery].call.Args[1].(*ast.Ident); ok {
+						reqVar = id.Name
+						fn := evs[iQuery].fn
+						for hop := 0; fn != run && hop < 3 && reqVar != ""; hop++ {
+							idx := -1
+							k := 0
+							for _, p := range fn.Type.Params.List {
+								for _, n := range p.Names {
+									if n.Name == reqVar {
+										idx = k
+									}
+									k++
 								}
 							}
-						}
-					}
-					if es, ok := st.(*ast.ExprStmt); ok && calls(es, "setPosition") && setPos < 0 {
-						setPos = i
-					}
-					if ifs, ok := st.(*ast.IfStmt); ok && query >= 0 && i > query && ifs.Else == nil {
-						// the failure branches: after the query, before the position is advanced
-						if setPos < 0 && (qrAssign < 0) {
-							nFail++
-							if endsWithContinue(ifs.Body) {
-								nCont++
+							next := ""
+							var caller *ast.FuncDecl
+							for _, e := range evs {
+								if e.kind == "call" && e.name == fn.Name.Name && idx >= 0 && idx < len(e.call.Args) {
+									if a, ok := e.call.Args[idx].(*ast.Ident); ok {
+										next, caller = a.Name, e.fn
+									}
+									break
+								}
+							}
+							reqVar, fn = next, caller
+							if fn == nil {
+								reqVar = ""
 							}
 						}
 					}
 				}
-				if onEv < 0 || setPos < 0 || query < 0 {
-					problem("forwarder.worker.run: Query/OnEvent/setPosition not found in the loop")
+				if reqVar == "" {
+					problem("forwarder worker: cannot identify the request variable that is passed to Query")
+				} else {
+					nAssign, iAssign := 0, -1
+					for i, e := range evs {
+						if e.kind == "assign" && e.name == reqVar && e.fn == run && fwInLoop(e, loop) {
+							nAssign++
+							iAssign = i
+						}
+					}
+					if nAssign == 0 {
+						problem("forwarder worker: the request variable %s is never replaced in the poll loop", reqVar)
+					}
+					retryKeeps = nAssign == 1 && iAssign > iSink
+					// guards: after the query and before the sink call at least two branches leave the iteration (query failed,
+					// nothing new); after the sink call and before the request is replaced at least one (sink failed), and in
+					// the loop function itself the last one before the replacement ends with `continue`
+					nBefore, nAfter := 0, 0
+					lastOwn := ""
+					for i, e := range evs {
+						if e.kind != "guard" || !fwInLoop(e, loop) {
+							continue
+						}
+						if i > iQuery && i < iSink {
+							nBefore++
+						}
+						if i > iSink && (iAssign < 0 || i < iAssign) {
+							nAfter++
+						}
+						if e.fn == run && i > iQuery && (iAssign < 0 || i < iAssign) {
+							lastOwn = e.name
+						}
+					}
+					failuresRetry = nBefore >= 2 && nAfter >= 1 && lastOwn == "continue"
 				}
-				// every assignment to the request variable anywhere in the loop (also inside the failure branches)
-				nQrAssign := 0
-				ast.Inspect(loop.Body, func(n ast.Node) bool {
-					if as, ok := n.(*ast.AssignStmt); ok {
-						for _, lhs := range as.Lhs {
-							if id, ok := lhs.(*ast.Ident); ok && id.Name == "qr" {
-								nQrAssign++
-							}
-						}
+				// the retry sleep
+				for _, e := range evs {
+					if e.kind == "call" && e.name == "Sleep" && fwInLoop(e, loop) && len(e.call.Args) == 2 && sleepSec < 0 {
+						sleepSec = secondsOf(e.call.Args[1], run)
 					}
-					return true
-				})
-				// setPosition calls anywhere in the loop
-				nSetPos := 0
-				ast.Inspect(loop.Body, func(n ast.Node) bool {
-					if c, ok := n.(*ast.CallExpr); ok {
-						if se, ok := c.Fun.(*ast.SelectorExpr); ok && se.Sel.Name == "setPosition" {
-							nSetPos++
-						}
-					}
-					return true
-				})
-				setAfter = onEv >= 0 && setPos > onEv && nSetPos == 1
-				retryKeeps = qrAssign > onEv && onEv >= 0 && nQrAssign == 1
-				failuresContinue = nFail == 3 && nCont == 3
+				}
 			}
-			ast.Inspect(run.Body, func(n ast.Node) bool {
-				as, ok := n.(*ast.AssignStmt)
-				if !ok || len(as.Lhs) != 1 || len(as.Rhs) != 1 {
-					return true
-				}
-				if id, ok := as.Lhs[0].(*ast.Ident); ok && id.Name == "sleepDur" {
-					if be, ok := as.Rhs[0].(*ast.BinaryExpr); ok && be.Op == token.MUL {
-						if bl, ok := be.X.(*ast.BasicLit); ok {
-							sleepSec, _ = strconv.Atoi(bl.Value)
-						}
-					}
-				}
-				return true
-			})
 		}
-		l.p("/-- in the worker loop `w.desc.setPosition(…)` comes after `w.sink.OnEvent(…)` -/")
+		l.p("/-- in the poll loop the only `setPosition(…)` comes after the sink's `OnEvent(…)` -/")
 		l.p("def setPositionAfterAccept : Bool := %s", leanBool(setAfter))
-		l.p("/-- the request `qr` is replaced only once in the loop, after `OnEvent` (so a failed iteration repeats the same request) -/")
+		l.p("/-- the variable passed to `Query` is replaced exactly once in the loop, after `OnEvent` (a failed iteration repeats the same request) -/")
 		l.p("def requestReplacedOnlyAfterAccept : Bool := %s", leanBool(retryKeeps))
-		l.p("/-- the three failure branches (query error, empty result, sink error) each end with `continue` -/")
-		l.p("def failuresRetry : Bool := %s", leanBool(failuresContinue))
+		l.p("/-- the failure branches (query error, empty result — before the sink call; sink error — after it) leave the iteration")
+		l.p("before the request is replaced; the loop function's own last such branch ends with `continue` -/")
+		l.p("def failuresRetry : Bool := %s", leanBool(failuresRetry))
 		if sleepSec < 0 {
-			problem("forwarder.worker.run: sleepDur not found")
+			problem("forwarder worker: the retry sleep duration was not found")
 		}
 		l.p("/-- seconds the worker sleeps before a retry -/")
 		l.p("def retrySleepSec : Nat := %d", sleepSec)
 
-		// prepareQuery: Pos comes from the descriptor's position
-		pq := funcDecl(wf, "worker", "prepareQuery")
-		posFromDesc, limit := false, -1
-		if pq == nil {
-			problem("forwarder.worker.prepareQuery not found")
-		} else {
-			ast.Inspect(pq.Body, func(n ast.Node) bool {
-				kv, ok := n.(*ast.KeyValueExpr)
-				if !ok {
+		// the first request: a QueryRequest literal whose Pos comes from the descriptor's position
+		posFromDesc, limit, foundLit := false, -1, false
+		for _, f := range fp.files {
+			ast.Inspect(f, func(n ast.Node) bool {
+				cl, ok := n.(*ast.CompositeLit)
+				if !ok || cl.Type == nil || !fwMentions(cl.Type, "QueryRequest") {
 					return true
 				}
-				id, ok := kv.Key.(*ast.Ident)
-				if !ok {
-					return true
-				}
-				if id.Name == "Pos" {
-					if c, ok := kv.Value.(*ast.CallExpr); ok {
-						if se, ok := c.Fun.(*ast.SelectorExpr); ok && se.Sel.Name == "getPosition" {
+				for _, el := range cl.Elts {
+					kv, ok := el.(*ast.KeyValueExpr)
+					if !ok {
+						continue
+					}
+					id, ok := kv.Key.(*ast.Ident)
+					if !ok {
+						continue
+					}
+					if id.Name == "Pos" {
+						foundLit = true
+						if fwCallsNamed(kv.Value, "getPosition") {
 							posFromDesc = true
 						}
 					}
-				}
-				if id.Name == "Limit" {
-					if bl, ok := kv.Value.(*ast.BasicLit); ok {
-						limit, _ = strconv.Atoi(bl.Value)
+					if id.Name == "Limit" {
+						if bl, ok := kv.Value.(*ast.BasicLit); ok {
+							limit, _ = strconv.Atoi(bl.Value)
+						}
 					}
 				}
 				return true
 			})
+		}
+		if !foundLit {
+			problem("forwarder worker: no QueryRequest literal with a Pos field found")
 		}
 		l.p("/-- a session's first request starts at the descriptor's (loaded) position -/")
 		l.p("def firstRequestFromDescPosition : Bool := %s", leanBool(posFromDesc))
 		l.p("def pageLimit : Nat := %d", limit)
 
-		// desc.MarshalJSON persists getPosition(); runPersistState has a final persist
-		ff := parseFile("pkg/forwarder/forwarder.go")
+		// desc.MarshalJSON persists getPosition()
 		persistsPos := false
-		if fd := funcDecl(ff, "desc", "MarshalJSON"); fd != nil {
+		if fd := fp.method("desc", "MarshalJSON"); fd != nil {
 			ast.Inspect(fd.Body, func(n ast.Node) bool {
 				if kv, ok := n.(*ast.KeyValueExpr); ok {
-					if id, ok := kv.Key.(*ast.Ident); ok && id.Name == "Position" {
-						if c, ok := kv.Value.(*ast.CallExpr); ok {
-							if se, ok := c.Fun.(*ast.SelectorExpr); ok && se.Sel.Name == "getPosition" {
-								persistsPos = true
-							}
-						}
+					if id, ok := kv.Key.(*ast.Ident); ok && id.Name == "Position" && fwCallsNamed(kv.Value, "getPosition") {
+						persistsPos = true
 					}
 				}
 				return true
@@ -191,32 +184,23 @@ func init() {
 		}
 		l.p("/-- what is persisted is `desc.getPosition()` -/")
 		l.p("def persistCopiesPosition : Bool := %s", leanBool(persistsPos))
+
+		// the persist job: a final persist after the tick loop
 		finalPersist := false
-		if fd := funcDecl(ff, "Forwarder", "runPersistState"); fd != nil {
-			ast.Inspect(fd.Body, func(n ast.Node) bool {
-				fl, ok := n.(*ast.FuncLit)
-				if !ok {
-					return true
-				}
-				seenLoop := false
-				for _, st := range fl.Body.List {
-					if _, ok := st.(*ast.ForStmt); ok {
-						seenLoop = true
-						continue
-					}
-					if seenLoop {
-						ast.Inspect(st, func(m ast.Node) bool {
-							if c, ok := m.(*ast.CallExpr); ok {
-								if se, ok := c.Fun.(*ast.SelectorExpr); ok && se.Sel.Name == "persistState" {
-									finalPersist = true
-								}
-							}
-							return true
-						})
+		if fd := fp.method("Forwarder", "runPersistState"); fd != nil {
+			lastInLoop := -1
+			for i, e := range fp.flatten(fd, 2) {
+				if e.kind == "call" && e.name == "persistState" {
+					if len(e.loops) > 0 {
+						lastInLoop = i
+					} else if lastInLoop >= 0 {
+						finalPersist = true
 					}
 				}
-				return false
-			})
+			}
+			if lastInLoop < 0 {
+				problem("forwarder.Forwarder.runPersistState: no periodic persistState call in a loop found")
+			}
 		} else {
 			problem("forwarder.Forwarder.runPersistState not found")
 		}
@@ -224,4 +208,41 @@ func init() {
 		l.p("def finalPersistAfterLoop : Bool := %s", leanBool(finalPersist))
 		l.write()
 	}
+}
+
+// secondsOf evaluates `N * time.Second` (or an identifier defined so in fd); -1 = not of that shape
+func secondsOf(e ast.Expr, fd *ast.FuncDecl) int {
+	switch x := e.(type) {
+	case *ast.BinaryExpr:
+		if x.Op == token.MUL {
+			if bl, ok := x.X.(*ast.BasicLit); ok && fwMentions(x.Y, "Second") {
+				v, _ := strconv.Atoi(bl.Value)
+				return v
+			}
+			if bl, ok := x.Y.(*ast.BasicLit); ok && fwMentions(x.X, "Second") {
+				v, _ := strconv.Atoi(bl.Value)
+				return v
+			}
+		}
+	case *ast.SelectorExpr:
+		if x.Sel.Name == "Second" {
+			return 1
+		}
+	case *ast.Ident:
+		res := -1
+		ast.Inspect(fd.Body, func(n ast.Node) bool {
+			if as, ok := n.(*ast.AssignStmt); ok {
+				for i, l := range as.Lhs {
+					if id, ok := l.(*ast.Ident); ok && id.Name == x.Name && i < len(as.Rhs) {
+						if _, self := as.Rhs[i].(*ast.Ident); !self {
+							res = secondsOf(as.Rhs[i], fd)
+						}
+					}
+				}
+			}
+			return true
+		})
+		return res
+	}
+	return -1
 }
